@@ -108,6 +108,8 @@ type Collector struct {
 	Cases   []Case
 	Extra   map[string]any
 	PerFile int
+	// Preamble is extra Coq text placed after the module import (e.g. a further Require Import)
+	Preamble string
 }
 
 func NewCollector(prop, module string) *Collector {
@@ -147,7 +149,7 @@ func (c *Collector) Flush() error {
 			end = len(c.Cases)
 		}
 		var sb strings.Builder
-		fmt.Fprintf(&sb, "From Turn Require Import %s.\nOpen Scope N_scope.\n", c.Module)
+		fmt.Fprintf(&sb, "From Turn Require Import %s.\n%s\nOpen Scope N_scope.\n", c.Module, c.Preamble)
 		fmt.Fprintf(&sb, "Definition cases : list %s.case := [\n", c.Module)
 		for i := start; i < end; i++ {
 			if i > start {
